@@ -20,10 +20,30 @@ from pyvc.values import Sym, And, Or, Not, Implies, ite, Opaque, NaNType, to_rea
 _cnt = [0]
 
 
+INVALID = -1      # every non-integral number is collapsed into this (invalid) element
+
+
+def elem(e):
+    """element term (Int): integers are themselves, non-integral reals are the INVALID token"""
+    if isinstance(e, bool):
+        e = int(e)
+    if isinstance(e, int):
+        return z3.IntVal(e)
+    if isinstance(e, float):
+        return z3.IntVal(int(e)) if e == int(e) else z3.IntVal(INVALID)
+    if hasattr(e, 'numerator') and not isinstance(e, Sym):
+        return z3.IntVal(e.numerator // e.denominator) if e.denominator == 1 else z3.IntVal(INVALID)
+    t = Sym.num(e)
+    if z3.is_int(t):
+        return t
+    t = z3.simplify(t)
+    return z3.simplify(z3.If(z3.IsInt(t), z3.ToInt(t), z3.IntVal(INVALID)))
+
+
 def fresh_pred(name):
     _cnt[0] += 1
-    f = z3.Function("%s!%d" % (name, _cnt[0]), z3.RealSort(), z3.BoolSort())
-    return lambda e: Sym(f(rterm(e)))
+    f = z3.Function("%s!%d" % (name, _cnt[0]), z3.IntSort(), z3.BoolSort())
+    return lambda e: Sym(f(elem(e)))
 
 
 def reset():
@@ -36,8 +56,12 @@ def rterm(e):
 
 
 def is_integral(e):
-    t = rterm(e)
-    return Sym(z3.IsInt(t))
+    if isinstance(e, int):
+        return True
+    t = Sym.num(e)
+    if z3.is_int(t):
+        return True
+    return Sym(z3.simplify(z3.IsInt(t)))
 
 
 class SSet(PyObj):
@@ -100,7 +124,7 @@ class SSet(PyObj):
             self.pred = lambda e: False
             self.known_empty = True
             return True
-        w = ctx.fresh_real("witness")
+        w = ctx.fresh_int("witness")
         ctx.assume(self.pred(w))
         return False
 
@@ -186,7 +210,7 @@ class SSet(PyObj):
         version0 = self.version
         empty = lambda e: False
         spec.enter(ctx, env)
-        sk = ctx.fresh_real("e_star")
+        sk = ctx.fresh_int("e_star")
         for lab, claim in spec.claims(ctx, env, empty):
             ctx.oblige("inv-init", "%s.%s" % (label, lab), claim(sk))
         mode = ctx.choice(2, "loop")
@@ -194,7 +218,7 @@ class SSet(PyObj):
         interp.havoc_locals(env, names, spec)
         DONE = fresh_pred("DONE")
         if mode == 0:
-            p = ctx.fresh_real("elem")
+            p = ctx.fresh_int("elem")
             done = lambda e: And(DONE(e), S0(e), Not(to_r(e) == to_r(p)))
             ctx.assume(S0(p))
             spec.install(ctx, env, done)
@@ -225,9 +249,10 @@ class SSet(PyObj):
 
 
 def to_r(x):
-    if isinstance(x, Sym):
-        return Sym(rterm(x))
-    return x
+    """canonical element value used in equalities between elements"""
+    if isinstance(x, (Opaque, NaNType)):
+        return x
+    return Sym(elem(x))
 
 
 class SetCard(PyObj):
